@@ -19,6 +19,11 @@ for p in sorted(glob.glob(os.path.join(V, "evidence", "C*.json"))):
     axs = "none (closed under the global context)" if not ax else ", ".join(ax)
     print("| %s | %d/%d | %s | %d | %d | %d | %d |" % (pid, c["discharged"], c["obligations"], axs, c["correspondence"]["cases_evaluated_in_coq"], c["evaluations"], len(open_f[pid]), len(fixed[pid])))
 print()
+print("Theorems per property (names as in `coq/props/Cxx.v`, each closed by `exact <lemma>` with `Print Assumptions` beneath):\n")
+for p in sorted(glob.glob(os.path.join(V, "coq", "props", "C*.v"))):
+    names = re.findall(r"^(?:Theorem|Lemma|Corollary|Example)\s+(\w+)", open(p).read(), re.M)
+    print("* %s (%d): %s" % (os.path.basename(p)[:-2], len(names), ", ".join("`%s`" % n for n in names)))
+print()
 print("Open findings:\n")
 for pid in sorted(open_f):
     for f in open_f[pid]:
@@ -32,6 +37,6 @@ print()
 print("Seeded changes:\n")
 print("| id | files | detected by |")
 print("|---|---|---|")
-for d in sorted(glob.glob(os.path.join(V, "seeded", "*", "meta.json"))):
+for d in sorted(glob.glob(os.path.join(V, "seeded", "*", "meta.json")), key=lambda x: (os.path.basename(os.path.dirname(x)).split("-")[0], int(os.path.basename(os.path.dirname(x)).split("-")[1]))):
     m = json.load(open(d))
-    print("| %s | %s | %s |" % (m["id"], ", ".join(os.path.basename(f) for f in m["files_changed"]), m["detected"]))
+    print("| %s | %s | %s |" % (m["id"], ", ".join(os.path.basename(f) for f in m["files_changed"]), str(m["detected"]).replace("|", "/").replace("\n", " ")[:400]))
